@@ -13,7 +13,7 @@ import random
 from datetime import date, datetime, timedelta, timezone
 from zoneinfo import ZoneInfo
 
-from vf.core import Ctx, cfg_text, main_wrapper, Machinery, Raw
+from vf.core import Ctx, cfg_text, main_wrapper, Machinery, Raw, run_apalache
 from icalendar import Event, Todo
 from icalendar.prop import vDDDTypes, vText, vDuration
 
@@ -229,6 +229,16 @@ def run(ctx: Ctx):
     r = ctx.mc("MC_StartEnd", cfg_text(spec="Spec", constants={"Durs": durs, "Old": False},
                                        invariants=["InvExclusive", "InvObs", "VecState"]),
                defs=defs, workers=4 if ctx.quick else 10, timeout=3000)
+    # unbounded form of the exclusivity clause: an inductive invariant discharged by Apalache
+    # (arbitrary integer times, any history length); the defective end setter must be refuted
+    v0, t0 = run_apalache("APA_StartEnd", ctx.work, ["--init=Init", "--inv=IndInv", "--length=0"])
+    v1, t1 = run_apalache("APA_StartEnd", ctx.work, ["--init=IndInit", "--inv=IndInv", "--length=1"])
+    vb, tb = run_apalache("APA_StartEnd", ctx.work, ["--init=IndInit", "--next=NextBad", "--inv=IndInv", "--length=1"])
+    if v0 != "ok" or v1 != "ok":
+        raise Machinery("Apalache did not discharge the inductive invariant of APA_StartEnd\n" + t0[-400:] + t1[-400:])
+    if vb != "violation":
+        raise Machinery("Apalache should refute the inductive step for the defective end setter (vacuity guard): " + vb + tb[-300:])
+    ctx.notes.append("Apalache: Init => IndInv and IndInv /\\ Next => IndInv' discharged (unbounded times and histories); NextBad refuted")
     trans = [v for v in r.prints if "o" in v]
     states = [v for v in r.prints if "state" in v]
     if len(trans) < 3000 or len(states) < 100:
